@@ -27,6 +27,7 @@ def snapshot(fx):
 
 
 _out_delete_counter = itertools.count()
+_variant_counter = itertools.count()
 
 
 class Proc:
@@ -46,9 +47,10 @@ class Proc:
             for t in ("t1", "t2"):
                 fx.add_cmd(t, self.cmd, [{"op": "out", "text": "hello\n"}, {"op": "exit", "code": 0}], ext=".sh",
                            ident={"cmd": self.cmd, "target": t})
-            args = ["run", "-c", self.cmd, "-t", "t1", "t2"]
+            # (the lock is taken by the API, whatever its flags: unparked invocations alternate between flag sets)
+            args = ["run", "-c", self.cmd, "-t", "t1", "t2"] + (["--deps"] if park is None and next(_variant_counter) % 2 == 1 else [])
         elif api == "cp_update":
-            args = ["checkpoint", "update", "-p"]
+            args = ["checkpoint", "update"] + ([] if park is None and next(_variant_counter) % 2 == 1 else ["-p"])
         elif api == "cp_delete":
             args = ["checkpoint", "delete"]
         else:
